@@ -93,7 +93,8 @@ func HarnessRolloutSplit() {
 	for _, a := range allow {
 		inAllow = vOr(inAllow, a == value)
 	}
-	thr := rc.PercentageSplitPoint
+	// (reference threshold computed here, not read back from the controller)
+	thr := float64(uint32(0xFFFFFFFF)) * (float64(p) / 100.0)
 	inPct := float64(refFNV1a(value)) <= thr
 	want := vAnd(has, vAnd(value != "", vOr(inAllow, inPct)))
 	vAssert(got == want, "split: decision == cookie present and (allowlisted or hash within percentage)")
@@ -172,7 +173,7 @@ var vHashFree uint32
 var vHashArg string
 var vHashCalls int
 
-//verif:stub (*github.com/basecamp/kamal-proxy/internal/server.RolloutController).hashForValue harness=HarnessRolloutSplitAbs
+//verif:stub (*github.com/basecamp/kamal-proxy/internal/server.RolloutController).hashForValue harness=HarnessRolloutSplitAbs,HarnessRolloutRestart
 func stubHashForValue(rc *RolloutController, value string) uint32 {
 	vHashCalls++
 	vAssert(value == vHashArg, "split: the hash is taken of exactly the cookie value")
@@ -209,7 +210,8 @@ func HarnessRolloutSplitAbs() {
 	for _, a := range allow {
 		inAllow = vOr(inAllow, a == value)
 	}
-	thr := rc.PercentageSplitPoint
+	// (reference threshold computed here, not read back from the controller)
+	thr := float64(uint32(0xFFFFFFFF)) * (float64(p) / 100.0)
 	want := vAnd(has, vAnd(value != "", vOr(inAllow, float64(vHashFree) <= thr)))
 	vAssert(got == want, "split: decision == cookie present and (allowlisted or hash within percentage)")
 	// exact integer form of the threshold: hash <= floor(maxUint32 * p / 100) computed in integers
@@ -235,4 +237,50 @@ func HarnessRolloutSplitAbs() {
 	vCover(got, "rollout chosen reachable")
 	vCover(vAnd(has, !got), "cookie present but active chosen reachable")
 	vCover(vHashCalls > 0, "hash consulted")
+}
+
+// HarnessRolloutRestart: the split survives a restart: for every percentage and allowlist the proxy restored from the
+// state file sends exactly the same cookie values to the rollout targets as the one that wrote it (hash abstracted
+// as in SplitAbs), and a rollout without a split stays without one.
+func HarnessRolloutRestart() {
+	vSortMode = 0
+	vSnapshotReal = true
+	capV := vParam("valuecap", 4)
+	value := vString("value", capV)
+	vAssume(vCookieValueOK(value, capV))
+	has := vBool("has_cookie")
+	vHashFree = vUint32("hash")
+	vHashArg = value
+	topts := TargetOptions{HealthCheckConfig: HealthCheckConfig{Path: "/up", Interval: 1000, Timeout: 1000}}
+	orig := NewRouter("/state")
+	svc, err := NewService("svc", ServiceOptions{Hosts: []string{"h"}}, topts)
+	vAssert(err == nil, "rollout restart: service builds")
+	svc.active = vDeployedBalancer([]string{"a0:80"}, topts)
+	svc.rollout = vDeployedBalancer([]string{"r0:80"}, topts)
+	withSplit := vChoose("with_split", 2) == 1
+	p := vChoose("pct", 101)
+	allow := []string{}
+	if vChoose("n_allow", 2) == 1 {
+		allow = append(allow, vString("allow0", vParam("allowcap", 3)))
+	}
+	if withSplit {
+		vAssert(svc.SetRolloutSplit(p, allow) == nil, "rollout restart: split accepted")
+	}
+	vAssert(orig.installService(svc) == nil, "rollout restart: install")
+	rest := NewRouter("/state")
+	vAssert(rest.RestoreLastSavedState() == nil, "rollout restart: the state file restores")
+	rsvc := rest.services.Get("svc")
+	vAssert(rsvc != nil && rsvc.rollout != nil, "rollout restart: the service and its rollout targets are restored")
+	if rsvc == nil || rsvc.rollout == nil {
+		return
+	}
+	r := vRolloutRequest("r", has, value)
+	before := svc.loadBalancerForRequest(r) == svc.rollout
+	after := rsvc.loadBalancerForRequest(r) == rsvc.rollout
+	vAssert(before == after, "rollout restart: the same requests go to the rollout targets before and after a restart")
+	if !withSplit {
+		vAssert(!after, "rollout restart: no split before => none after")
+	}
+	vCover(vAnd(withSplit, after), "rollout chosen after restart reachable")
+	vCover(vAnd(withSplit, vAnd(has, !after)), "active chosen after restart reachable")
 }
